@@ -588,13 +588,13 @@ impl Packet {
                                 return Err(MessageError::InvalidOptionLength);
                             }
 
-                            length = (u16::from_be(u8_to_unsigned_be!(
+                            length = u16::from_be(u8_to_unsigned_be!(
                                 buf,
                                 idx,
                                 idx + 1,
                                 u16
-                            )) + 269)
-                                as usize;
+                            )) as usize
+                                + 269;
                             idx += 2;
                         }
                         15 => {
